@@ -618,8 +618,13 @@ theorem frel_rqDecode (s : BSt) (st : Stmt) : FRel s (rqDecode s st) := by
   · exact FRel.ofEq rfl rfl rfl rfl rfl rfl
   · exact FRel.refl _
 theorem frel_rqMove (s : BSt) (i : Nat) (st : Stmt) (rest : List Stmt) : FRel s (rqMove s i st rest) := by
-  unfold PB.rqMove
-  exact ((frel_rqPrep s i).trans (frel_rqDecode _ st)).trans (FRel.setTh _ i _ (fun _ => rfl))
+  have h0 : FRel s (rqMove0 s i st rest) := by
+    unfold PB.rqMove0
+    exact ((frel_rqPrep s i).trans (frel_rqDecode _ st)).trans (FRel.setTh _ i _ (fun _ => rfl))
+  unfold PB.rqMove fmtNote
+  split
+  · exact h0.trans (FRel.emit _ _ rfl)
+  · exact h0
 
 theorem frel_readQueue (hrel : ∀ s k, FRel s (inj s k)) (tsNow : Option Nat) (i : Nat) (fuel : Nat) :
     ∀ (total : Nat) (s : BSt), FRel s (Backend.readQueue inj tsNow i fuel total s) := by
